@@ -335,13 +335,18 @@ class C03(Check):
             'complete evaluation, raises on a learner whose evaluation was cut short); each x {no fault} + every distinct single fault designated '
             'on one of its triples (raise at env.params, item k of env.read, learner.params, k-th predict, k-th learn, evaluator.params, '
             'evaluator.evaluate, learner.finish; k in 0..1, thorough 0..2); thorough adds every unordered pair of distinct faults for lists of '
-            'length <=3 (bare + plain learners, shared chunk + finish hook). '
+            'length <=3 (bare + plain learners, shared chunk + finish hook). Family B: lists <=2 (thorough <=3) with E1 / E0 (thorough: / both) piped into '
+            'Batch(2) (one learner class, which takes single interactions only, on batched and unbatched environments) x every single fault. Family C: '
+            'lists <=2 (thorough <=3) with the environments piped into Cache(25) / Chunk+Cache(25) x every single fault, and with a 32-interaction E0 '
+            '(bare / Cache / Chunk+Cache) x read faults at items 0,1,24,25,26,30 (before / inside / after the first cache slice), predict faults at '
+            'calls 0,26, learn fault at call 26. '
             'A case is non-trivial when it has >=2 triples and (a learner object is listed in several triples or a fault position is '
             'reached inside an evaluation)')
     ASSUMPTIONS = [
         'in-process configuration only (processes=1, maxchunksperchild=0, maxtasksperchunk in {0,2}); no result file',
-        'reference = the real single-triple experiment run alone on fresh components with the same kind of environment object (a differential '
-        'oracle, as the statement words it); which triples must fail is decided by a plain model of the components (fault position < number of '
+        'reference = the real single-triple experiment run alone on fresh components with the same kind of environment object, IN A PROCESS THAT HAS '
+        'EVALUATED NOTHING ELSE (forked from a zygote that was forked before the worker ran its first experiment), so state kept on classes / modules '
+        'cannot leak into the reference (a differential oracle, as the statement words it); which triples must fail is decided by a plain model of the components (fault position < number of '
         'reads / predict / learn calls the evaluator makes)',
         'rows are attributed to triples by their content (the environment tags its interactions, the learner writes its tag to learning_info, '
         'the scripted evaluator tags its rows); environment_id / learner_id / evaluator_id are ignored; the order of rows of different triples is ignored',
@@ -356,8 +361,12 @@ class C03(Check):
         'has a log entry; it may remove the rows of the triple that copy belonged to (if rows are there they must be the alone-run rows) and of no other triple',
         'the learners publish what they were taught through CobaContext.learning_info (coba\'s documented channel for per-interaction learner output); '
         'the scripted evaluator neither reads nor clears it',
-        'lists with the same triple twice, learners with custom __eq__/__hash__, stateful evaluators / environments, cached environments (Chunk with cache=True) are outside the alphabet',
-        'a violating case is attributed to its simplest still-violating variant (faults dropped, wrapping / form / quiet simplified, undesignated triples dropped) '
+        'lists with the same triple twice, learners with custom __eq__/__hash__, stateful evaluators / environments other than coba\'s own Cache filter are outside the alphabet',
+        'every case runs in its worker process after all the cases that worker ran before (so state left behind by earlier experiments is exercised too); a case that '
+        'violates there is re-examined and minimised in pristine processes; if it does not violate in a pristine process it is reported under the key feature '
+        '"only after other experiments have run in the same process" with a witness {after: [one earlier experiment], case} found among canonical single-triple experiments '
+        'and the worker\'s recent history (the statement speaks of one experiment; this is the same isolation defect class, state surviving on classes / modules)',
+        'a violating case is attributed to its simplest still-violating variant (faults dropped, wrapping / batching / length / form / quiet simplified, undesignated triples dropped) '
         'and keyed by what that variant still needs',
     ]
     TECHNIQUE = ('bounded-exhaustive enumeration of triple lists / constructor forms x environment wrappings x fault positions on the real '
@@ -365,11 +374,12 @@ class C03(Check):
     LEVEL_TEXT = ('Every ordered list of <=3 (thorough <=4) distinct triples over 2 environments x 2 history-revealing learners x 2 evaluators '
                   '(every sharing pattern of learner / environment / evaluator objects and every order), every cross-product constructor form and '
                   '2-tuple lists, with bare and chunked environments (single-task and multi-task chunks of ProcessTasks), each without fault and with '
-                  'every single fault position on every designated triple (thorough: every fault pair for lists <=3), is run through the real '
-                  'Experiment.run in-process and compared triple by triple with the triple run alone.')
-    LEVEL_NOTE = ('small-scope: <=4 triples (8 in cross-product form), environments of 2-3 interactions, faults at call positions 0..2, at most two faults; '
+                  'every single fault position on every designated triple (thorough: every fault pair for lists <=3), plus mixed batched / unbatched '
+                  'environments and environments behind coba\'s Cache with read faults before / inside / after a cache slice, is run through the real '
+                  'Experiment.run in-process and compared triple by triple with the triple run alone in a pristine process.')
+    LEVEL_NOTE = ('small-scope: <=4 triples (8 in cross-product form), environments of 2-3 (one family: 32) interactions, faults at call positions 0..2 (32-interaction family: 0,1,24,25,26,30), at most two faults; '
                   'in-process configuration only (multi-process configurations are added through the SCHED engine by the orchestrator)')
-    MIN_NONTRIVIAL = {'quick': 40000, 'thorough': 800000}
+    MIN_NONTRIVIAL = {'quick': 45000, 'thorough': 850000}
     CASE_TIMEOUT = 60
 
     # ---------------------------------------------------------------- enumeration
@@ -523,7 +533,8 @@ class C03(Check):
             if case['chunk'] == 'chunk+cache':
                 yield {**case, 'chunk': 'cache'}
                 yield {**case, 'chunk': 'per-env'}
-        if case.get('long') and all(f.get('k', 0) < 2 for f in faults): yield drop('long')
+        if case.get('long'):                          # the short environment, fault positions clamped into it
+            yield {**drop('long'), 'faults': [{**f, 'k': min(f.get('k', 0), 1)} for f in faults]}
         if case.get('quiet'): yield drop('quiet')
         if case['form'] != 'triples':
             c = drop('envs', 'lrns', 'vals')
